@@ -3,6 +3,8 @@
 independent sub-agents (/tmp/seed-out/<id>/<k>/patch.diff).  --confirm first re-verifies the agent's own claims
 (suite passes with the change; demo fails with it and passes without) in the agent's worktree."""
 import json, os, subprocess, sys, time
+RND = os.environ.get("SEED_ROUND", "")
+OUT = "/tmp/seed%s-out" % RND
 ENV = dict(os.environ, GOFLAGS="-mod=mod", GOPROXY="off", GOSUMDB="off", GOTOOLCHAIN="local")
 args = [a for a in sys.argv[1:] if not a.startswith("--")]
 tier = "quick"
@@ -10,18 +12,18 @@ if "--tier" in sys.argv:
     tier = sys.argv[sys.argv.index("--tier") + 1]
     args.remove(tier)
 pid = args[0]
-ks = args[1:] or sorted(d for d in os.listdir("/tmp/seed-out/" + pid) if d.isdigit())
+ks = args[1:] or sorted(d for d in os.listdir(OUT + "/" + pid) if d.isdigit())
 checks = [pid]
 if "--checks" in sys.argv:
     checks = sys.argv[sys.argv.index("--checks") + 1].split(",")
     args = [a for a in args if a != sys.argv[sys.argv.index("--checks") + 1]]
     ks = [k for k in ks if k.isdigit()]
-wt = "/tmp/wt-seed-%s" % pid
+wt = "/tmp/wt-seed%s-%s" % (RND, pid)
 if not os.path.isdir(wt):
     subprocess.run(["git", "-C", "/repo", "worktree", "add", "--detach", wt, "HEAD"], check=True, capture_output=True)
 res = []
 for k in ks:
-    d = "/tmp/seed-out/%s/%s" % (pid, k)
+    d = OUT + "/%s/%s" % (pid, k)
     patch = os.path.join(d, "patch.diff")
     subprocess.run(["git", "-C", wt, "checkout", "-q", "--", "."], check=True)
     subprocess.run(["git", "-C", wt, "clean", "-fdq"], check=True)
@@ -59,7 +61,7 @@ for k in ks:
 subprocess.run(["git", "-C", wt, "checkout", "-q", "--", "."])
 subprocess.run(["git", "-C", wt, "clean", "-fdq"])
 subprocess.run(["git", "-C", "/repo", "worktree", "remove", "--force", wt], capture_output=True)
-outf = "/tmp/seed-out/%s/tryseed-%s.json" % (pid, tier)
+outf = OUT + "/%s/tryseed-%s.json" % (pid, tier)
 old = []
 if os.path.exists(outf):
     old = [r for r in json.load(open(outf)) if r["seed"] not in {x["seed"] for x in res}]
